@@ -183,7 +183,8 @@ def check_liveness(chk, F, cls, f):
     from ..wsdef import WsDef
     inst = f["full"].split("evaluate")[1][:60]
     wsrec = cls + "::Workspace"
-    spline_cls = next(x["ty"]["n"] for x in F.record(wsrec)["fields"] if x["name"] == "spline")
+    from .common import workspace_spline_field
+    spline_cls = workspace_spline_field(F, wsrec)[1]
     W = WsDef(F, cls, wsrec, spline_cls, {})
     try:
         from .c16 import discover_roles
